@@ -727,6 +727,44 @@ def absval(o, with_tags=True):
     return head + ('?', repr(o)[:80])
 
 
+def absval_norm(o):
+    """absval modulo lazy instantiation, which ASN.1 cannot tell apart: an absent
+    DEFAULT component equals the default value, and an untouched placeholder in an
+    OPTIONAL slot equals absence."""
+    univ = p.univ
+    a = absval(o)
+    if not isinstance(o, p.base.Asn1Item):
+        return a
+    if isinstance(o, univ.Choice):
+        try:
+            return a[:2] + (o.getName(), absval_norm(o.getComponent()))
+        except p.error.PyAsn1Error:
+            return a
+    if isinstance(o, (univ.SequenceOf, univ.SetOf)):
+        if not _is_touched(o):
+            return a
+        return a[:2] + (tuple(absval_norm(o.getComponentByPosition(i, default=None, instantiate=False))
+                              for i in range(len(o))),)
+    if isinstance(o, (univ.Sequence, univ.Set)):
+        if not _is_touched(o):
+            return a
+        ct = o.componentType
+        n = len(ct) or len(o)
+        items = []
+        for i in range(n):
+            c = o.getComponentByPosition(i, default=None, instantiate=False)
+            ca = absval_norm(c)
+            if len(ct):
+                nt = ct[i]
+                if ca is not None and len(ca) == 3 and ca[2] == 'NOVALUE' and (nt.isOptional or nt.isDefaulted):
+                    ca = None
+                if ca is None and nt.isDefaulted:
+                    ca = absval_norm(nt.asn1Object)
+            items.append(ca)
+        return a[:2] + (tuple(items),)
+    return a
+
+
 def _safe_isvalue(o):
     try:
         return bool(o.isValue)
@@ -785,3 +823,58 @@ def decoder_module(name):
     from pyasn1.codec.cer import decoder as cdec
     from pyasn1.codec.der import decoder as ddec
     return {'ber': bdec, 'cer': cdec, 'der': ddec}[name]
+
+
+# ---------------------------------------------------------------------------
+# semantic snapshot (DESIGN.md appendix C): pure function of public observables
+
+def snapshot(obj, depth=0):
+    """Everything a user can observe about a schema or value object, as a nested
+    tuple.  Uses instantiate=False everywhere; never touches __dict__."""
+    univ = p.univ
+    if obj is None:
+        return None
+    if not isinstance(obj, p.base.Asn1Item):
+        return ('NOT-ASN1', type(obj).__name__)
+    out = [type(obj).__name__, tagset_key(obj.tagSet)]
+    try:
+        out.append(repr(obj.subtypeSpec))
+    except Exception as e:
+        out.append('subtypeSpec!' + type(e).__name__)
+    if depth < 10:
+        if isinstance(obj, (univ.Sequence, univ.Set, univ.Choice)):
+            nts = []
+            ct = obj.componentType
+            for i in range(len(ct)):
+                nt = ct[i]
+                ot = None
+                if nt.openType:
+                    ot = (nt.openType.name, tuple(sorted((repr(k), snapshot(v, depth + 1)) for k, v in nt.openType.items())))
+                nts.append((nt.name, bool(nt.isOptional), bool(nt.isDefaulted), snapshot(nt.asn1Object, depth + 1), ot))
+            out.append(tuple(nts))
+        elif isinstance(obj, (univ.SequenceOf, univ.SetOf)):
+            out.append(snapshot(obj.componentType, depth + 1) if obj.componentType is not None else None)
+    try:
+        out.append(bool(obj.isValue))
+    except Exception as e:
+        out.append('isValue!' + type(e).__name__)
+    out.append(absval_norm(obj))
+    if depth == 0:
+        from pyasn1.codec.ber import encoder as benc
+        from pyasn1.codec.der import encoder as denc
+        is_value = out[-2] is True
+        for enc in (benc, denc):
+            if not is_value:
+                break       # a schema object has no encoding to observe
+            try:
+                out.append(enc.encode(obj))
+            except Exception as e:
+                out.append('encode!' + type(e).__name__)
+        for probe in (0, b'', obj):
+            for op in ('eq', 'ne'):
+                try:
+                    r = (obj == probe) if op == 'eq' else (obj != probe)
+                    out.append(bool(r))
+                except Exception as e:
+                    out.append(op + '!' + type(e).__name__)
+    return tuple(out)
